@@ -239,21 +239,27 @@ void BatchSpanProcessor::Export()
   }
 #endif /* ENABLE_THREAD_INSTRUMENTATION_PREVIEW */
 
+  // Latest ForceFlush request seen by this call and how many of the records that were queued when
+  // it was seen are still to be exported.
+  std::uint64_t notify_force_flush = 0;
+  size_t force_flush_backlog       = 0;
+
   do
   {
     std::vector<std::unique_ptr<Recordable>> spans_arr;
-    size_t num_records_to_export;
-    std::uint64_t notify_force_flush =
+    const std::uint64_t pending_force_flush =
         synchronization_data_->force_flush_pending_sequence.load(std::memory_order_acquire);
-    if (notify_force_flush)
+    // Read the size once: producers keep adding while we look at it.
+    const size_t buffer_size = buffer_.size();
+    if (pending_force_flush > notify_force_flush)
     {
-      num_records_to_export = buffer_.size();
+      // A new ForceFlush request: it is complete once everything queued by now has been exported.
+      notify_force_flush  = pending_force_flush;
+      force_flush_backlog = buffer_size;
     }
-    else
-    {
-      num_records_to_export =
-          buffer_.size() >= max_export_batch_size_ ? max_export_batch_size_ : buffer_.size();
-    }
+    // Every batch honours max_export_batch_size, also while a ForceFlush is being served.
+    const size_t num_records_to_export =
+        buffer_size >= max_export_batch_size_ ? max_export_batch_size_ : buffer_size;
 
     if (num_records_to_export == 0)
     {
@@ -275,7 +281,11 @@ void BatchSpanProcessor::Export()
                     });
 
     exporter_->Export(nostd::span<std::unique_ptr<Recordable>>(spans_arr.data(), spans_arr.size()));
-    NotifyCompletion(notify_force_flush, exporter_, synchronization_data_);
+    force_flush_backlog -= (std::min)(force_flush_backlog, num_records_to_export);
+    if (force_flush_backlog == 0)
+    {
+      NotifyCompletion(notify_force_flush, exporter_, synchronization_data_);
+    }
   } while (true);
 
 #ifdef ENABLE_THREAD_INSTRUMENTATION_PREVIEW
